@@ -28,6 +28,8 @@ def run(ctx):
     c07.r3_index(ctx)
     ctx.alias = {'R4': 'R2'}
     c07.r4_iteration(ctx)       # measures_count = len(index): the `to` of the last pair
+    ctx.alias = {'R1': 'R3'}
+    c07.r1_validator(ctx)       # every pair concat hands out is accepted by the validator (in particular (M, M))
     ctx.alias = {}
     f = ctx.prog.func(f'{N.GENERIC}.Generic.concat')
     # concat keeps nothing between calls: among the writes the effect analysis finds below it, none goes to a class attribute or a
